@@ -41,6 +41,42 @@ var c18SharedTexts = []string{
 	/* 11 */ `not (name in ["n100", "n110", "n120"]) and rank >= 2 skip 0 limit 1000`,
 	/* 12 */ `true sort by rank desc skip 1 limit 3`,
 	/* 13 */ `name not in ["n100", "n131"] and name contains "n1" skip 0 limit 1000`,
+	// round 9: sorted on 1..8 fields (text 13+k has k sort fields, the first is never id: the sorting scanner runs and
+	// newRowComparator appends its terminal `id` field to what GetSortFields handed out); fields with ties first so that
+	// every position of the list decides some pair of rows; ext is nil for some rows (nil sorts first)
+	/* 14 */ `true sort by rank skip 0 limit 1000`,
+	/* 15 */ `true sort by even desc, rank skip 0 limit 1000`,
+	/* 16 */ `rank >= 1 sort by even, rank desc, name desc skip 1 limit 20`,
+	/* 17 */ `true sort by rank, even, ext desc, name skip 0 limit 1000`,
+	/* 18 */ `true sort by even, rank desc, even desc, ext, name desc skip 2 limit 30`,
+	/* 19 */ `rank >= 2 sort by rank, rank desc, even, ext desc, ext, name skip 0 limit 1000`,
+	/* 20 */ `true sort by ext, even desc, rank, rank, even, ext desc, name desc skip 0 limit 7`,
+	/* 21 */ `true sort by even, ext, rank desc, even desc, ext desc, rank, name, name desc skip 3 limit 1000`,
+}
+
+// c18SortFieldsTwice is observation kind O<k> (k = 1..8 sort fields): what two scans of ONE parsed query do with its sort
+// fields, played in one goroutine - caller 1 takes GetSortFields() and appends its own terminal field (as newRowComparator
+// does), caller 2 does the same with another element, then caller 1 looks at what it holds.
+// answer: len(mine) . mine[k] is my element . len(theirs) . theirs[k] is their element
+func (e *c18Env) c18SortFieldsTwice(k int) string {
+	if k < 1 || 13+k >= len(c18SharedTexts) {
+		return "bad-q"
+	}
+	q, err := ast.Parse(e.things, c18SharedTexts[13+k])
+	if err != nil {
+		return "err"
+	}
+	mineExtra := ast.NewSortFieldNode("id", true)
+	theirsExtra := ast.NewSortFieldNode("name", false)
+	mine := append(q.GetSortFields(), mineExtra)
+	theirs := append(q.GetSortFields(), theirsExtra)
+	b := func(ok bool) int {
+		if ok {
+			return 1
+		}
+		return 0
+	}
+	return fmt.Sprintf("%d.%d.%d.%d", len(mine), b(len(mine) == k+1 && mine[k] == ast.SortField(mineExtra)), len(theirs), b(len(theirs) == k+1 && theirs[k] == ast.SortField(theirsExtra)))
 }
 
 func (e *c18Env) runShared(tx *bbolt.Tx, q ast.Query) string {
